@@ -335,6 +335,9 @@ func (w *originWalker) into(c *ssa.Call, callee *ssa.Function, idx int, e *env, 
 		}
 		if i < len(r.Results) {
 			any = true
+			if zeroWithError(r, i) {
+				continue // `return <zero>, err`: the value of a failed call, which callers do not use
+			}
 			w.walk(ResultOf(r, i), -1, ne, depth+1)
 		}
 	}
@@ -524,4 +527,25 @@ func (w *originWalker) walkField(v ssa.Value, fi int, e *env, depth int) {
 	}
 	// construction not visible: fall back to the whole value
 	w.walk(v, -1, e, depth+1)
+}
+
+// zeroWithError recognises the idiom `return <zero value>, …, err` with a non-nil error: the
+// i-th result of such a return is not a value the caller works with.
+func zeroWithError(r *ssa.Return, i int) bool {
+	n := len(r.Results)
+	if n < 2 || i >= n-1 {
+		return false
+	}
+	last := ResultOf(r, n-1)
+	if last == nil || IsNilConst(last) {
+		return false
+	}
+	if nt, ok := last.Type().(*types.Named); !ok || nt.Obj().Name() != "error" || nt.Obj().Pkg() != nil {
+		return false
+	}
+	k, ok := ResultOf(r, i).(*ssa.Const)
+	if !ok {
+		return false
+	}
+	return k.Value == nil || isBasicZero(k)
 }
